@@ -265,6 +265,42 @@ fn cross_mode_sequences(rep: &Report) {
     rep.extra("cross_mode_sequences", json!(nseq));
 }
 
+/// "For every sender and recipient key pair": key pairs chosen by value and by the shape of their public key (see
+/// c06::shaped_idents), as sender and as recipient, one-chunk and two-chunk plaintexts, through the public API; the
+/// file is cross-read by REF and REF's file is decrypted by the code under test.
+fn shaped_key_pairs(rep: &Report) {
+    let seed = rep.seed;
+    let ids = idents(seed);
+    let shaped = crate::c06::shaped_idents(seed);
+    let mut jobs = vec![];
+    for (i, _) in shaped.iter().enumerate() {
+        for role in 0..3u8 {
+            for l in [0usize, 40, CS as usize + 1] {
+                jobs.push((i, role, l));
+            }
+        }
+    }
+    jobs.par_iter().for_each(|&(i, role, l)| {
+        rep.eval(1);
+        let k = &shaped[i];
+        // role 0: shaped key is the sender; 1: the recipient; 2: both
+        let (s, rc): (&Ident, &Ident) = match role { 0 => (k, &ids[2]), 1 => (&ids[0], k), _ => (k, k) };
+        rep.nontrivial(format!("shaped-{}-{}-{}", k.name, role, l).as_bytes());
+        let p = plaintext(seed ^ 0x1f, l);
+        let case = json!({"kind":"cross-mode","shaped":k.name,"role":role,"len":l});
+        let (res, out) = run_plain(&Subject::KeyEnc { s: hx(&s.sk), s_pub: hx(&s.pk), r_pub: hx(&rc.pk), e: String::new(), payload: String::new() }, &p);
+        if !res.is_ok() || !matches!(r::read_key_file(&rc.sk, &out), Ok(kf) if kf.parsed.plaintext == p && kf.sender == s.pk) {
+            rep.violation("C01/key-pair-by-shape-encrypt", case.clone(), format!("key_encrypt with the honest key pair '{}' as {} does not produce a file its recipient can read: {}", k.name, ["sender", "recipient", "sender and recipient"][role as usize], res.brief()));
+            return;
+        }
+        let (res, back) = run_plain(&Subject::KeyDec { r: hx(&rc.sk), r_pub: hx(&rc.pk) }, &out);
+        if !matches!(&res, Res::Ok(snd) if snd.as_deref() == Some(&s.pk[..])) || back != p {
+            rep.violation("C01/key-pair-by-shape-decrypt", case, format!("key_decrypt with the honest key pair '{}' as {} fails or misreports: {}", k.name, ["sender", "recipient", "sender and recipient"][role as usize], res.brief()));
+        }
+    });
+    rep.extra("shaped_key_pair_cases", json!(jobs.len()));
+}
+
 pub fn run(rep: &Report) {
     let seed = rep.seed;
     rep.set_rule("E-ENV: every tape of Read/Write answers within the stated budgets is executed on the real code; read partitions in tiny scope are exhaustive (every composition of L into parts <= cs). A case is one complete execution; distinct non-trivial = distinct ciphertext streams (i.e. distinct (keys, length, chunking)) that were produced by the real encryptor and decrypted again by the real decryptor");
@@ -368,6 +404,7 @@ pub fn run(rep: &Report) {
     }
     cli_roundtrips(rep);
     cross_mode_sequences(rep);
+    shaped_key_pairs(rep);
     rep.eval(execs.load(Ordering::Relaxed));
     rep.extra("production_executions", json!(execs.load(Ordering::Relaxed)));
     rep.extra("production_lengths", json!(lens));
@@ -401,8 +438,12 @@ fn cli_roundtrips(rep: &Report) {
                 continue;
             }
             // wiring 0: FILE arguments and -o; 1: stdin/stdout pipes; 2: the FILE argument is a named pipe (FIFO), -o files
-            for wiring in 0..3u8 {
+            // 3: stdin/stdout pipes, and the decrypting side's keyring does not contain the sender
+            for wiring in 0..4u8 {
                 for preexisting in [false, true] {
+                    if wiring == 3 && (preexisting || s == r) {
+                        continue;
+                    }
                     if wiring == 2 && (preexisting || (s, r) != (0, 1)) {
                         continue;
                     }
@@ -413,7 +454,8 @@ fn cli_roundtrips(rep: &Report) {
     }
     let parties = [&alice, &bob];
     jobs.par_iter().for_each(|&(l, s, r, wiring, preexisting, content)| {
-        let pipes = wiring == 1;
+        let pipes = wiring == 1 || wiring == 3;
+        let sender_unknown = wiring == 3;
         let fifo = wiring == 2;
         rep.eval(1);
         rep.nontrivial(format!("cli-rt-{}-{}-{}-{}-{}-{}", l, s, r, wiring, preexisting, content).as_bytes());
@@ -467,7 +509,10 @@ fn cli_roundtrips(rep: &Report) {
             };
             // decrypt
             let (back, stderr) = if pipes {
-                let o = proc::run(&Cmd::new(&["decrypt", "-t", &rcp.name, "-k", "kr.txt", "--env-pass"]).env("KESTREL_PASSWORD", &rcp.password).stdin(&ct), &sc.0);
+                if sender_unknown {
+                    sc.write("kr-rcpt-only.txt", rcp.entry(true).as_bytes());
+                }
+                let o = proc::run(&Cmd::new(&["decrypt", "-t", &rcp.name, "-k", if sender_unknown { "kr-rcpt-only.txt" } else { "kr.txt" }, "--env-pass"]).env("KESTREL_PASSWORD", &rcp.password).stdin(&ct), &sc.0);
                 o.well_behaved()?;
                 if !o.ok() {
                     return Err(format!("kestrel decrypt (pipes) of the file just produced failed: {}", o.summary()));
@@ -487,9 +532,13 @@ fn cli_roundtrips(rep: &Report) {
                 (sc.read("back.bin").ok_or("no plaintext file")?, o.stderr)
             };
             if back != p {
-                return Err(format!("CLI round trip of {} bytes{} ({}{}) returns {} bytes that differ from the original", l, ["", " ending in 4096 zero bytes", " whose second half is zero", ", all zero"][content as usize], if pipes { "pipes" } else if fifo { "FILE arguments are named pipes" } else { "files" }, if preexisting { ", output paths held longer files before" } else { "" }, back.len()));
+                return Err(format!("CLI round trip of {} bytes{} ({}{}) returns {} bytes that differ from the original", l, ["", " ending in 4096 zero bytes", " whose second half is zero", ", all zero"][content as usize], if sender_unknown { "pipes, sender not in the decrypting keyring" } else if pipes { "pipes" } else if fifo { "FILE arguments are named pipes" } else { "files" }, if preexisting { ", output paths held longer files before" } else { "" }, back.len()));
             }
-            if !stderr.split(|c: char| !(c.is_alphanumeric() || c == '-' || c == '_')).any(|t| t == snd.name) {
+            if sender_unknown {
+                if !stderr.contains(&snd.pk_enc) {
+                    return Err(format!("decryption with a keyring that lacks the sender does not report the sender's key {}: {:?}", snd.pk_enc, stderr));
+                }
+            } else if !stderr.split(|c: char| !(c.is_alphanumeric() || c == '-' || c == '_')).any(|t| t == snd.name) {
                 return Err(format!("decryption does not report sender '{}': {:?}", snd.name, stderr));
             }
             Ok(())
@@ -511,6 +560,7 @@ fn cli_roundtrips(rep: &Report) {
 pub fn replay(rep: &Report, case: &Value) {
     if case["kind"] == "cross-mode" {
         cross_mode_sequences(rep);
+        shaped_key_pairs(rep);
         return;
     }
     if case["kind"] == "cli-roundtrip" {
